@@ -253,6 +253,12 @@ impl SimFs {
         self.st.borrow().calls.clone()
     }
 
+    /// scenarios in which a file is legitimately opened very often switch the guard off (the fuel counter is the
+    /// bound there)
+    pub fn set_cycle_guard_limit(&self, limit: u32) {
+        self.st.borrow_mut().cycle_guard_limit = limit;
+    }
+
     pub fn cycle_guard_hit(&self) -> bool {
         self.st.borrow().cycle_guard_hit
     }
